@@ -972,6 +972,15 @@ def extract_cases(ctx, ih, rows, key, route, only=None, extra=None):
             if [int(v) for v in out[2]] == [payload[p_] for p_ in recorded if 0 <= p_ < n] and \
                     [row_lit(r) for r in out[1]] == [row_lit(rows[p_]) for p_ in recorded if 0 <= p_ < n]:
                 tags['finding'] = step_finding(key, depth)
+        elif recorded is not None and isinstance(out, Exception) and lit.err_class(out) == 'ErrorInitIndex':
+            # the direct consequence of the recorded wrong positions: those rows do not form a hierarchy (not tree ordered /
+            # repeated), so building the result raises ErrorInitIndex -- excused only when exactly that is the case
+            try:
+                sf.IndexHierarchy.from_labels([rows[p_] for p_ in recorded if 0 <= p_ < n])
+            except Exception as e2:  # noqa
+                if lit.err_class(e2) == 'ErrorInitIndex':
+                    tags['finding'] = step_finding(key, depth)
+                    tags['outcome'] = 'raises:ErrorInitIndex (rows at the recorded wrong positions are no hierarchy)'
         ctx.count(f'extract:{name}')
         # a single selection carries no labels in the Series/Frame forms: compare the payload only
         if not isinstance(out, Exception) and out[0] and not out[1]:
